@@ -37,6 +37,8 @@ func runOne(spec string, sch *drivers.Schedule) []drivers.TraceLine {
 		return drivers.NewWireRun(sch).Run()
 	case "membercb":
 		return drivers.NewMemberCBRun(sch).Run()
+	case "memberdyn":
+		return drivers.NewMemberDynRun(sch).Run()
 	}
 	fmt.Fprintln(os.Stderr, "unknown spec", spec)
 	os.Exit(2)
